@@ -41,6 +41,7 @@ func runC01(c *core.Ctx) {
 	c.Clause("C01.9 a vote is counted for the voter that was asked: the handshake on every new connection compares cluster id and node id")
 	h.listenerRefusesMismatch("C01.9 listener")
 	h.dispatcherHandsOver("C01.10 dispatcher")
+	h.voteResultsUnderCurrentState("C01.11 vote-results-under-current-state")
 }
 
 func runC17(c *core.Ctx) {
@@ -75,4 +76,6 @@ func runC17(c *core.Ctx) {
 	h.transferReplyMeaning("C17.9c transfer-end-reevaluates")
 	c.Clause("C17.12 a node dropped from the configuration cannot depose the leader through what its replication had already queued")
 	h.removedReplicationMuted("C17.12 removed-muted")
+	c.Clause("C17.13 a failing replication retries within the follower's election timeout")
+	h.backOffCapped("C17.13 backoff-capped")
 }
